@@ -12,6 +12,7 @@ mod mint;
 mod gcd;
 mod rational;
 mod sieve;
+mod iter;
 
 use util::arg_value;
 
@@ -45,6 +46,8 @@ fn main() {
         ("gcd", "record") => gcd::record(seed, &tier, &out),
         ("rational", "record") => rational::record(seed, &tier, &out),
         ("sieve", "record") => sieve::record(seed, &tier, &out),
+        ("iter", "replay") => iter::replay(&args[3], &out),
+        ("iter", "record") => iter::record(seed, &tier, &out),
         ("mint", "record") => mint::record(seed, &tier, &out),
         ("writer", "replay") => writer::replay(&args[3], &out),
         ("writer", "record") => writer::record(seed, &tier, &out),
